@@ -41,7 +41,7 @@ def run_vectors(chk, vecs, name, label, chunk=5000):
         val = "%s%d/%d * 10^%d" % ("-" if rec.get("neg") else "", rec.get("n", 0), rec.get("d", 1), rec.get("k", 0))
         if "unfaithful" in m["problems"] or rec.get("panic"):
             chk.violation("value %s limit=%s threshold=%s printed as %r" % (val, rec.get("limit"), rec.get("el"), rec.get("text")),
-                          {"kind": "display", "neg": rec.get("neg"), "n": rec.get("n"), "d": rec.get("d"), "k": rec.get("k"),
+                          {"kind": "display", "neg": rec.get("neg"), "n": rec.get("n"), "d": rec.get("d"), "k": rec.get("k"), "form": rec.get("form") or "",
                            "limit": rec.get("limit"), "el": rec.get("el"), "printed": rec.get("text"), "panic": rec.get("panic"),
                            "what": "the printed text, read back, is not the value cut off toward zero at its last digit with the right sign, "
                                    "or the continuation mark does not tell whether non-zero digits were cut"})
@@ -87,11 +87,18 @@ def run(chk):
         d = rnd.choice([rnd.randint(1, 9999), rnd.randint(1, 99), 2 ** rnd.randint(0, 12), 5 ** rnd.randint(0, 5), 1, 3, 7, 9, 11, 13])
         rv.append({"neg": rnd.random() < 0.4, "n": n, "d": d, "k": rnd.randint(-40, 40) if rnd.random() < 0.8 else 0,
                    "limit": rnd.randint(1, 20) if rnd.random() < 0.7 else 12, "el": rnd.randint(1, 15) if rnd.random() < 0.7 else 12})
+    # the same value as it stands after decoding stored data (serde keeps the pair as written): both parts negated, a common factor
+    for k, v in enumerate(rv):
+        if k % 8 == 0:
+            v["form"] = "negden"
+        elif k % 8 == 1:
+            v["form"] = "unreduced"
+    chk.cov["values_in_stored_form"] = sum(1 for v in rv if v.get("form"))
     run_vectors(chk, rv, "c08-random", "random values", chunk=2000)
     chk.cov["replayed_paths"] = paths
     chk.cov["exhaustive"] = False
     chk.cov["rule"] = ("model: every (sign, n <= %d, d <= %d, k in %s, limit in %s, threshold in %s) (exhaustive); replay: the 1/%d slice of that grid; "
-                       "random: %d values n/d*10^k with n, d < 10^4, |k| <= 40, limits 1..20, thresholds 1..15; one evaluation = one rendering by the "
+                       "random: %d values n/d*10^k with n, d < 10^4, |k| <= 40, limits 1..20, thresholds 1..15, a quarter of them handed to the formatter as decoded from storage (both parts negated; unreduced); one evaluation = one rendering by the "
                        "real formatter read back by TLC; non-trivial = the text carries a continuation mark or an exponent, distinct by case"
                        % (p["MaxN"], p["MaxD"], p["Ks"], p["Limits"], p["ELimits"], p["stride"], p["random"]))
     chk.sample(vecs[len(vecs) // 2])
@@ -100,4 +107,4 @@ def run(chk):
 
 def replay(chk, case):
     vlib.build_harness("release")
-    run_vectors(chk, [{k: case[k] for k in ("neg", "n", "d", "k", "limit", "el")}], "c08-replayed", "replay")
+    run_vectors(chk, [dict({k: case[k] for k in ("neg", "n", "d", "k", "limit", "el")}, form=case.get("form") or "")], "c08-replayed", "replay")
